@@ -135,9 +135,12 @@ pub fn build(id: &str, tier: &str, seed: u64, threads: usize) -> Option<Plan> {
                     fam_bogus_acks(b, &mut rng, &mut cases);
                 }
                 fam_strays(b, &mut cases);
-                fam_random(b, &mut rng, if q { 4 } else { 40 }, 6, &mut cases);
-                if !q && b.spec.w <= 3 && b.spec.b <= 512 && b.spec.nblocks() <= 2 * b.spec.w as u64 + 1 {
+                fam_random(b, &mut rng, if q { 4 } else { 500 }, 6, &mut cases);
+                if !q && b.spec.w <= 4 && b.spec.b <= 512 && b.spec.nblocks() <= 2 * b.spec.w as u64 + 1 {
                     fam_pairs(b, false, 1, &mut cases);
+                }
+                if !q && b.spec.b == 8 {
+                    fam_triples(b, false, 13, &mut cases);
                 }
             }
             Some(Plan {
@@ -174,9 +177,12 @@ pub fn build(id: &str, tier: &str, seed: u64, threads: usize) -> Option<Plan> {
                 }
                 fam_single(b, false, 2, &mut cases);
                 fam_strays(b, &mut cases);
-                fam_random(b, &mut rng, if q { 4 } else { 40 }, 6, &mut cases);
-                if !q && b.spec.w <= 3 && b.spec.b <= 512 && b.spec.nblocks() <= 2 * b.spec.w as u64 + 1 {
+                fam_random(b, &mut rng, if q { 4 } else { 500 }, 6, &mut cases);
+                if !q && b.spec.w <= 4 && b.spec.b <= 512 && b.spec.nblocks() <= 2 * b.spec.w as u64 + 1 {
                     fam_pairs(b, false, 1, &mut cases);
+                }
+                if !q && b.spec.b == 8 {
+                    fam_triples(b, false, 13, &mut cases);
                 }
             }
             Some(Plan {
@@ -208,9 +214,12 @@ pub fn build(id: &str, tier: &str, seed: u64, threads: usize) -> Option<Plan> {
                 if b.spec.b == 8 {
                     fam_timers(b, true, &mut cases);
                 }
-                fam_random(b, &mut rng, if q { 6 } else { 60 }, 5, &mut cases);
-                if !q && b.spec.w <= 3 && b.spec.b == 8 && b.spec.nblocks() <= 2 * b.spec.w as u64 + 1 {
+                fam_random(b, &mut rng, if q { 6 } else { 500 }, 5, &mut cases);
+                if !q && b.spec.w <= 4 && b.spec.b == 8 && b.spec.nblocks() <= 2 * b.spec.w as u64 + 1 {
                     fam_pairs(b, true, 1, &mut cases);
+                }
+                if !q && b.spec.b == 8 {
+                    fam_triples(b, true, 13, &mut cases);
                 }
             }
             Some(Plan {
@@ -243,6 +252,12 @@ pub fn build(id: &str, tier: &str, seed: u64, threads: usize) -> Option<Plan> {
                 }
                 fam_single(b, false, 1, &mut cases);
                 fam_strays(b, &mut cases);
+                if !q {
+                    fam_random(b, &mut rng, 300, 6, &mut cases);
+                    if b.spec.w <= 3 && b.spec.b == 8 && b.spec.nblocks() <= 2 * b.spec.w as u64 + 1 {
+                        fam_pairs(b, false, 1, &mut cases);
+                    }
+                }
             }
             Some(Plan {
                 cases,
@@ -285,7 +300,13 @@ pub fn build(id: &str, tier: &str, seed: u64, threads: usize) -> Option<Plan> {
                     fam_strays(b, &mut cases);
                 }
                 if !q {
-                    fam_random(b, &mut rng, 20, 4, &mut cases);
+                    fam_random(b, &mut rng, 300, 5, &mut cases);
+                    if b.spec.w <= 4 && b.spec.b == 8 && b.spec.nblocks() <= 2 * b.spec.w as u64 + 1 {
+                        fam_pairs(b, false, 1, &mut cases);
+                    }
+                    if b.spec.b == 8 {
+                        fam_triples(b, false, 9, &mut cases);
+                    }
                 }
             }
             Some(Plan {
